@@ -390,7 +390,9 @@ func c09Metamorphic(e *Eval, tsOut prog.Outputs, tsPi *prog.PanicInfo, dartOut p
 						e.Fail("ignored-field-invariance", "validator changes", fmt.Sprintf("validator %s differs with and without the ignored field %s", name, desc))
 					}
 				}
-				if e.Prog.Notes["host"] != "struct" && len(sc2.Functions) != len(sqlSchema.Functions) {
+				// every struct declared in the analysed file is a table for the SQL target (Item, the
+				// union member Circle, the nested Inner): only a host of another package is not
+				if e.Prog.Notes["host"] == "sub-struct" && len(sc2.Functions) != len(sqlSchema.Functions) {
 					e.Fail("ignored-field-invariance", "validator set changes", fmt.Sprintf("%d validators with the ignored field, %d without %s", len(sqlSchema.Functions), len(sc2.Functions), desc))
 				}
 			}
